@@ -210,6 +210,18 @@ def sut(f, *a, **k):
     except RecursionError:
         raise
     except Exception as e:      # noqa: BLE001 - classification is the caller's job
+        # The harness may keep the exception until the next op: it must not keep
+        # objects of the system under test alive through it (frames of the
+        # traceback; TraitError.object is the HasTraits instance itself).
+        e.__traceback__ = None
+        if getattr(e, "object", None) is not None:
+            try:
+                e.object = None
+            except Exception:      # noqa: BLE001
+                pass
+        c = e.__context__
+        if c is not None:
+            c.__traceback__ = None
         return None, e
 
 
